@@ -263,6 +263,8 @@ type Frame struct {
 }
 
 type activeLoop struct {
+	iterHeap  map[string]*Term
+	iterCells map[*ssa.Alloc]Val
 	info    *LoopInfo
 	written map[string]string
 	dec0    *Term
@@ -291,6 +293,7 @@ type State struct {
 	nopanic      bool
 	retOrd       int
 	skolems      []*Term
+	obsSeq       int
 	havocNames   []string // heap arrays released wholesale by a callee: later first touches start from a fresh symbol
 }
 
